@@ -176,6 +176,8 @@ type Ctx struct {
 	curLoop     int
 	loopIdxVar  map[int]*types.Var
 	loopWrites  map[int]map[string]bool // heap keys written by each loop (dry run), by loop ordinal
+	watchKeys   map[string]bool         // heap keys whose reads are being watched (postconditions over keys a callee hides)
+	watchHit    bool
 	lastNfRefs  map[string][]string     // per base key: pre-existing objects the last discovered loop writes, if all are loop-invariant terms
 	lastNfVague map[string]bool         // keys / prefixes for which the objects written are not all known loop-invariant terms
 	loopHavoc   bool
@@ -626,6 +628,9 @@ func isRefLike(t types.Type) bool {
 
 func (c *Ctx) heapGet(s *State, key, sort string) string {
 	c.sorts[key] = sort
+	if c.watchKeys != nil && c.watchKeys[key] {
+		c.watchHit = true
+	}
 	if t, ok := s.heap[key]; ok {
 		return t
 	}
